@@ -3,6 +3,6 @@ From AQ Require Import Lib.Bytes Lib.ExtractBase Rpc.Registry Generated.GenApis 
 Require Extraction.
 Require Import ExtrOcamlBasic.
 Extraction "../ocaml/rpc/model.ml" base_anchor
-  gen_exposed gen_apis gen_meta_api gen_default_config gen_callers
+  gen_exposed gen_apis gen_apis_clique gen_meta_api gen_default_config gen_callers
   exposed register is_allowed is_protected env_bool format_name wire_name modules signs_of
   all_off flag_of.
